@@ -32,17 +32,14 @@ def main(argv=None):
         return 0 if ok else 1
     t0 = time.time()
     ctx = C_ctx(pid, a.tier, seed)
-    ps = C.proof_status(pid, gens=getattr(mod, 'GENS', None))
-    try:
-        res = mod.run(ctx)
-    except Exception:
-        # The harness crashed - typically because the implementation raised where the
-        # harness did not expect it. Fail closed: the correspondence could not be
-        # established, so the property is no longer shown to hold.
-        tb = traceback.format_exc()
-        print(tb)
-        res = C.Result(rule='harness crashed before completing', evaluations=0)
-        res.corr_errors = [('harness-crash', tb[-3000:])]
+    # A check that depends on generated files (Gen/*.v are shared and belong to ONE tree at a time)
+    # keeps the build lock from regeneration until its cases are evaluated, so that a concurrent
+    # check against another tree cannot swap the generated model under it. Checks over hand models
+    # only take the lock while building.
+    import contextlib
+    hold = C.Lock() if (getattr(mod, 'GENS', None) and getattr(mod, 'HOLD_LOCK', True)) else contextlib.nullcontext()
+    with hold:
+        ps, res = _proof_and_run(mod, pid, ctx)
     checker = 'make -C coq Props/%s.vo && coqc -Q coq PyIpmi coq/Props/%s.v (Print Assumptions)' % (pid, pid)
     if a.tier == 'thorough' and ps.ok and not os.environ.get('VERIF_NO_COQCHK'):
         rc, out = C.sh(['coqchk', '-silent', '-o', '-Q', '.', 'PyIpmi', 'PyIpmi.Props.%s' % pid],
@@ -54,6 +51,21 @@ def main(argv=None):
             ps.failed_theorem = 'coqchk'
             ps.log += out[-2000:]
     return C.finish(pid, a.tier, seed, ps, res, t0, checker, getattr(mod, 'TRUSTED', ()))
+
+
+def _proof_and_run(mod, pid, ctx):
+    ps = C.proof_status(pid, gens=getattr(mod, 'GENS', None))
+    try:
+        res = mod.run(ctx)
+    except Exception:
+        # The harness crashed - typically because the implementation raised where the
+        # harness did not expect it. Fail closed: the correspondence could not be
+        # established, so the property is no longer shown to hold.
+        tb = traceback.format_exc()
+        print(tb)
+        res = C.Result(rule='harness crashed before completing', evaluations=0)
+        res.corr_errors = [('harness-crash', tb[-3000:])]
+    return ps, res
 
 
 class C_ctx:
